@@ -398,6 +398,18 @@ fn items(tier: Tier) -> &'static Vec<Item> {
                 }
             }
         }
+        if thorough {
+            // n = 3 at the seam with 3 deviations (chess) for the programs built from the
+            // three most different writers: used at once, written in two flushed parts, unused
+            let sub = [Action::Respond(10), Action::Raw { writes: 2, body: 1500, flush: true }, Action::Raw { writes: 0, body: 0, flush: false }];
+            for a in &sub {
+                for b in &sub {
+                    for c in &sub {
+                        v.push(Item::Seam(SeamScenario { actions: vec![a.clone(), b.clone(), c.clone()] }, Some(3)));
+                    }
+                }
+            }
+        }
         {
             // n = 4: all 24 forced orders over a reduced action set
             let acts4: Vec<Action> = if thorough {
@@ -476,7 +488,7 @@ impl Check for C01 {
         format!(
             "answer actions {:?}; n=2: every program, handler threads started in both forced orders (bound 0), all at once (strict bound 2), with the second request sent while the first handler already runs (connection thread parsing concurrently, bound 1), and at the SequentialWriter seam (ALL interleavings, unbounded); n=3: every program over 6 actions with all 6 forced orders, racing at strict bound 1{}; {} scenarios; oracle: the client stream parses into complete messages whose (status, request id) sequence is the request order (writers that emit nothing are skipped, a dropped request shows as 500), bodies carry their own request id, no hang; non-trivial = all",
             actions(tier).iter().map(|a| a.label()).collect::<Vec<_>>(),
-            if tier == Tier::Thorough { " and at the seam at chess bound 2; n=4: 4 actions, all 24 forced orders" } else { " and at the seam at chess bound 1; n=4: 3 actions (respond, unused raw writer, drop), all 24 forced orders" },
+            if tier == Tier::Thorough { " and at the seam at chess bound 2, plus chess bound 3 at the seam for the 27 programs over {respond, raw writer in two flushed parts, unused raw writer}; n=4: 4 actions, all 24 forced orders" } else { " and at the seam at chess bound 1; n=4: 3 actions (respond, unused raw writer, drop), all 24 forced orders" },
             items(tier).len()
         )
     }
